@@ -130,8 +130,12 @@ def generate(spec):
             if rng.random() < 0.5:
                 ops.append({"op": "run_step", "settings": {}})
             ops.append({"op": "end_session"})
-        else:
+        elif r < 0.93 or channel != "dict" or is_x:
             ops.append({"op": "reset_cache", "manager": mgrn, "scenario": sc})
+        else:
+            # the scenario is registered again under its name with another definition: what the new definition does not
+            # mention goes back to the manager's base values / the model's own
+            ops.append({"op": "add_scenario", "manager": mgrn, "name": sc, "dict": c06.gen_settings(rng, tpl, base, partial_runspecs=True)})
     return {"property": PROPERTY, "config": cfg, "ops": ops}
 
 
